@@ -76,7 +76,7 @@ pub fn cases(ctx: &Ctx) -> Vec<WCase> {
         s.mp = rr.pick(&[0usize, 2, 8]);
         s.delay = rr.below(3) as usize;
         s.frames = 150;
-        s.link = Link { drop: rr.pick(&[0.0, 0.1, 0.3, 0.5]), dup: rr.pick(&[0.0, 0.2]), base_ms: rr.pick(&[0u64, 20, 80]), jitter_ms: rr.pick(&[0u64, 30, 120]), outages: vec![], faults: vec![] };
+        s.link = Link { drop: rr.pick(&[0.0, 0.1, 0.3, 0.5]), dup: rr.pick(&[0.0, 0.2]), base_ms: rr.pick(&[0u64, 20, 80]), jitter_ms: rr.pick(&[0u64, 30, 120]), outages: vec![], faults: vec![], stragglers: vec![] };
         s.stray_replies = rr.chance(0.6);
         s.notify_ms = 20_000;
         s.timeout_ms = 30_000;
@@ -102,7 +102,7 @@ pub fn cases(ctx: &Ctx) -> Vec<WCase> {
             s.timeout_ms = rr.pick(&[300u64, 500]);
             s.notify_ms = s.timeout_ms + rr.pick(&[0u64, 0, 200]);
         }
-        s.link = Link { drop: 0.0, dup: 0.0, base_ms: rr.pick(&[0u64, 10, 30]), jitter_ms: rr.pick(&[0u64, 3]), outages: vec![], faults: vec![] };
+        s.link = Link { drop: 0.0, dup: 0.0, base_ms: rr.pick(&[0u64, 10, 30]), jitter_ms: rr.pick(&[0u64, 3]), outages: vec![], faults: vec![], stragglers: vec![] };
         let mut outs = vec![];
         let mut t = 1500u64;
         let n_sil = rr.range(2, 5);
@@ -205,7 +205,7 @@ pub fn cases(ctx: &Ctx) -> Vec<WCase> {
             outs.push(Outage { from_ms: t, to_ms: t + 150, kinds: 0 });
             t += 400;
         }
-        s.link = Link { drop: 0.0, dup: 0.0, base_ms: 5, jitter_ms: 0, outages: outs, faults: vec![] };
+        s.link = Link { drop: 0.0, dup: 0.0, base_ms: 5, jitter_ms: 0, outages: outs, faults: vec![], stragglers: vec![] };
         for k in 0..s.peers.len() {
             let mut c = NodeCfg::default();
             c.drain = false;
